@@ -49,9 +49,10 @@ func runDispatch(seed int64, p *ProgDef, argv []string) *DispatchObs {
 		buf := new(bytes.Buffer)
 		getoptions.Writer = buf
 		type res struct {
-			err  error
-			help string
-			pan  interface{}
+			err      error
+			help     string
+			sections string
+			pan      interface{}
 		}
 		ch := make(chan res, 1)
 		go func() {
@@ -63,6 +64,15 @@ func runDispatch(seed int64, p *ProgDef, argv []string) *DispatchObs {
 				ch <- r
 			}()
 			r.help = b.Opt.Help()
+			// sections asked for explicitly come out in the order given, each as when asked for alone
+			sec := []getoptions.HelpSection{getoptions.HelpName, getoptions.HelpSynopsis, getoptions.HelpCommandList, getoptions.HelpOptionList}
+			i, j := len(argv)%4, (len(argv)/4+1+len(argv)%4)%4
+			if i != j {
+				both := b.Opt.Help(sec[i], sec[j])
+				if parts := b.Opt.Help(sec[i]) + b.Opt.Help(sec[j]); both != parts {
+					r.sections = fmt.Sprintf("Help(%d, %d) = %q but Help(%d) + Help(%d) = %q", sec[i], sec[j], both, sec[i], sec[j], parts)
+				}
+			}
 			ctx := context.WithValue(context.Background(), ctxKey("verif"), "token")
 			// the caller's context is passed on as it is, whatever its state: every fifth command line
 			// (by its text) is dispatched with a context that is already cancelled or past its deadline
@@ -93,6 +103,9 @@ func runDispatch(seed int64, p *ProgDef, argv []string) *DispatchObs {
 		}
 		d.HelpText = r.help
 		d.DWriter = buf.String()
+		if r.sections != "" {
+			obs.Oracle["C18"] = append(obs.Oracle["C18"], OracleHit{Key: "help-sections", What: r.sections})
+		}
 		for _, h := range helpOracle(b.Opt.VerifDumpFinal(), r.help) {
 			obs.Oracle["C18"] = append(obs.Oracle["C18"], h)
 		}
